@@ -161,7 +161,7 @@ static const double TM[T_COUNT][9] = {
     { 16384, 0, 0, 0, 16384, 0, 0, 0, 1 },        /* transform_point_3d overflows */
     { 4096, 0, 0, 0, 4096, 0, 0, 0, 1 },          /* forward differencing leaves the 16.16 range */
 };
-static const int TR_QUICK[]    = { T_NONE, T_SCALE2, T_ROT90, T_PROJ };
+static const int TR_QUICK[]    = { T_NONE, T_SCALE2, T_ROT90, T_PROJ, T_W2 };
 static const int TR_THOROUGH[] = { T_NONE, T_SCALE2, T_TRANS_HALF, T_ROT90, T_PROJ, T_W2, T_SHEAR, T_PROJ2 };
 static const int TR_SAFETY[]   = { T_NONE, T_PROJ, T_SING_ZERO, T_SING_RANK1, T_SING_W0, T_SING_WCROSS, T_SING_WNEG, T_HUGE, T_HUGE2 };
 
@@ -580,7 +580,7 @@ int main(int argc, char **argv)
               "stop lists with more than 4 stops or positions off the quarter grid, and negative radii are not enumerated");
 
     int nl = th ? NLISTS[4] : NLISTS[3];
-    int ntr = th ? 8 : 4; const int *trs = th ? TR_THOROUGH : TR_QUICK;
+    int ntr = th ? 8 : 5; const int *trs = th ? TR_THOROUGH : TR_QUICK;
     int norg = th ? 2 : 1;
     run_colour("colour-linear", K_LINEAR, nl, th ? 12 + N_LPAIRS_X : 12, ntr, trs, norg);
     run_colour("colour-radial", K_RADIAL, nl, th ? N_RGEO_ALL : N_RGEO_QUICK, ntr, trs, norg);
@@ -604,7 +604,7 @@ int main(int argc, char **argv)
                      "2 projective, w=2, shear); 2 origins; 2 pipelines.  Safety: 14 unsorted/out-of-range/extreme stop lists x degenerate geometries "
                      "x 9 transforms (5 singular/overflowing) x 4 repeats x 2 origins; n_stops <= 0." FAR_TXT " (grid lists with <= 3 stops)"
                    : "stop lists: all 1..3-stop lists with non-decreasing positions from {0,1/4,1/2,1/2,3/4,1} x 4 colours per stop; linear 12 ordered "
-                     "point pairs; radial 12 circle pairs; conical 3 centres x 4 angles; 4 repeat modes; 4 transforms (none, scale 2, rotate 90, "
-                     "projective); origin (0,0); 2 pipelines.  Safety spaces as in the thorough tier." FAR_TXT " (grid lists with <= 2 stops)";
+                     "point pairs; radial 12 circle pairs; conical 3 centres x 4 angles; 4 repeat modes; 5 transforms (none, scale 2, rotate 90, "
+                     "projective, affine with w=2); origin (0,0); 2 pipelines.  Safety spaces as in the thorough tier." FAR_TXT " (grid lists with <= 2 stops)";
     return vf_finish();
 }
